@@ -741,7 +741,7 @@ impl CCtx {
 fn fc_atom(i: u64) -> E {
     if i == 0 { var(DSP_IN) } else { num(1.0) }
 }
-const FC_RADIX: u64 = 39;
+const FC_RADIX: u64 = 42;
 pub fn fc_count(k: u32) -> u64 {
     seq_count(FC_RADIX, k)
 }
@@ -975,6 +975,51 @@ fn fc_stmt(c: &mut CCtx, o: u64) -> Option<()> {
             let s = c.sites.next();
             c.stmts.push(let_(&r, call("fact", vec![arg], s)));
             c.vars.push((r, Ty::F, false));
+        }
+        39 => {
+            // a getter / setter pair over one local: the getter only reads the captured variable, the setter assigns it
+            let v = c.fresh("c");
+            let (inc, get) = (c.fresh("inc"), c.fresh("get"));
+            let (r1, r2, r3) = (c.fresh("r"), c.fresh("r"), c.fresh("r"));
+            c.ops.push(format!("let {v} = {}; let {inc} = | | {{ {v} = {v} + 1; {v} }}; let {get} = |y| {v} * 10 + y; let {r1} = {get}(1); let {r2} = {inc}(); let {r3} = {get}(1)", pe(&a, 0)));
+            c.stmts.push(let_(&v, a.clone()));
+            let body = E::Block(vec![S::Assign(v.clone(), bin("+", var(&v), num(1.0)))], Some(Box::new(var(&v))));
+            c.stmts.push(let_(&inc, E::Lambda(vec![], Box::new(body))));
+            c.stmts.push(let_(&get, E::Lambda(vec!["y".into()], Box::new(bin("+", bin("*", var(&v), num(10.0)), var("y"))))));
+            let (s1, s2, s3) = (c.sites.next(), c.sites.next(), c.sites.next());
+            c.stmts.push(let_(&r1, call(&get, vec![num(1.0)], s1)));
+            c.stmts.push(let_(&r2, call(&inc, vec![], s2)));
+            c.stmts.push(let_(&r3, call(&get, vec![num(1.0)], s3)));
+            c.vars.push((v, Ty::F, true));
+            c.vars.push((inc, Ty::C0, false));
+            c.vars.push((get, Ty::C1, false));
+            c.vars.push((r1, Ty::F, false));
+            c.vars.push((r2, Ty::F, false));
+            c.vars.push((r3, Ty::F, false));
+        }
+        40 | 41 => {
+            // the defining frame assigns a local after a closure that only reads it was made (40: before the first call;
+            // 41: between two calls)
+            let v = c.fresh("c");
+            let f = c.fresh("f");
+            let (r1, r2) = (c.fresh("r"), c.fresh("r"));
+            c.stmts.push(let_(&v, a.clone()));
+            c.stmts.push(let_(&f, E::Lambda(vec!["y".into()], Box::new(bin("+", var("y"), var(&v))))));
+            let (s1, s2) = (c.sites.next(), c.sites.next());
+            if o == 40 {
+                c.ops.push(format!("let {v} = {}; let {f} = |y| y + {v}; {v} = {v} * 2 + 1; let {r1} = {f}(1)", pe(&a, 0)));
+                c.stmts.push(S::Assign(v.clone(), bin("+", bin("*", var(&v), num(2.0)), num(1.0))));
+                c.stmts.push(let_(&r1, call(&f, vec![num(1.0)], s1)));
+            } else {
+                c.ops.push(format!("let {v} = {}; let {f} = |y| y + {v}; let {r1} = {f}(1); {v} = {v} + 5; let {r2} = {f}(1)", pe(&a, 0)));
+                c.stmts.push(let_(&r1, call(&f, vec![num(1.0)], s1)));
+                c.stmts.push(S::Assign(v.clone(), bin("+", var(&v), num(5.0))));
+                c.stmts.push(let_(&r2, call(&f, vec![num(1.0)], s2)));
+                c.vars.push((r2, Ty::F, false));
+            }
+            c.vars.push((v, Ty::F, true));
+            c.vars.push((f, Ty::C1, false));
+            c.vars.push((r1, Ty::F, false));
         }
         23 => {
             // named stateful function passed as a value
